@@ -153,3 +153,4 @@ def shrink_candidates(line):
                     yield " ".join(head + cmds[:i] + ["/".join([f[0], f[1], ",".join(a2), f[3], f[4]])] + cmds[i + 1:])
         if f[3] != "-":
             yield " ".join(head + cmds[:i] + ["/".join([f[0], f[1], f[2], "-", f[4]])] + cmds[i + 1:])
+PARAM_EXTRACTORS = ["shellextract"]
